@@ -51,6 +51,10 @@ Proof.
   intros. unfold calldata_slice_start, calldata_slice_stop. split; wire.
 Qed.
 
+(* a creation frame, whose message data is the init code, has an empty calldata *)
+Lemma w_calldata_create : calldata_empty_in_create 0%Z = true.
+Proof. reflexivity. Qed.
+
 (* copy_returndata_to_memory: nothing written only when min(ret_size, actual) = 0; the
    partial copy is [0, min(ret_size, actual)); the whole object only when all of it fits *)
 Lemma w_retcopy : forall ret_size actual,
@@ -405,8 +409,12 @@ Proof.
     + destruct (w_calldatacopy loc off size) as (Hdo & -> & -> & ->).
       destruct (zb3 calldatacopy_do loc off size).
       * apply lift_refines; [exact Hst|].
-        destruct (calldata_slice_correct B zero (m_cd e) off size Hcd) as [H1 H2].
-        rewrite <- H2. apply set_mslice_correct; assumption.
+        assert (Hfc : wf (frame_calldata e) /\ flat (frame_calldata e) = (if m_create e then [] else flat (m_cd e))).
+        { unfold frame_calldata. rewrite w_calldata_create, andb_true_r.
+          destruct (m_create e); [split; [apply wf_empty | reflexivity] | split; [exact Hcd | reflexivity]]. }
+        destruct Hfc as [Hfw Hff].
+        destruct (calldata_slice_correct B zero (frame_calldata e) off size Hfw) as [H1 H2].
+        rewrite Hff in H2. rewrite <- H2. apply set_mslice_correct; assumption.
       * rewrite (Hdo eq_refl), read_padded_0, mem_write_nil. apply size0_refines. exact Hst.
     + destruct (w_codecopy loc off size) as (Hdo & -> & -> & ->).
       destruct (zb3 codecopy_do loc off size).
@@ -467,7 +475,7 @@ Qed.
 Lemma callee_correct : forall (ccode arg : bvec) (body : list (mbop B)) roff rsize,
   wf ccode -> wf arg -> Forall mbop_ok body ->
   exists rd,
-    match mb_run (ME arg ccode) (MF empty empty) body with
+    match mb_run (ME arg ccode false) (MF empty empty) body with
     | ROk cst => Some (mslice zero (m_mem cst) roff rsize)
     | RHalt => Some empty
     | RErr => None
@@ -475,10 +483,10 @@ Lemma callee_correct : forall (ccode arg : bvec) (body : list (mbop B)) roff rsi
     flat rd = callee_returns B zero (flat ccode) (flat arg) (map abs_mbop body) roff rsize.
 Proof.
   intros ccode arg body roff rsize Hc Ha Hb.
-  assert (He : wf_env (ME arg ccode)) by (split; assumption).
+  assert (He : wf_env (ME arg ccode false)) by (split; assumption).
   assert (Hs : wf_frame (MF (@empty B) empty)) by (split; apply wf_empty).
-  pose proof (mb_run_correct (ME arg ccode) body (MF empty empty) He Hs Hb) as H.
-  unfold callee_returns. unfold abs_env, abs_frame in H. cbn [m_cd m_code m_mem m_rd] in H.
+  pose proof (mb_run_correct (ME arg ccode false) body (MF empty empty) He Hs Hb) as H.
+  unfold callee_returns. unfold abs_env, abs_frame in H. cbn [m_cd m_code m_create m_mem m_rd] in H.
   change (flat (@empty B)) with (@nil B) in H.
   destruct (fb_run (FE (flat arg) (flat ccode)) (FF [] []) (map abs_mbop body)) as [fst|]; cbn [refines] in H.
   - destruct H as (cst & -> & [Hw _] & <-).
@@ -487,11 +495,46 @@ Proof.
   - rewrite H. exists empty. split; [reflexivity|]. split; [apply wf_empty | reflexivity].
 Qed.
 
+(* the init frame of a creation: code = mem[loc, loc + size), empty calldata *)
+Lemma init_frame_correct : forall (mem : bvec) loc size (body : list (mbop B)),
+  wf mem -> Forall mbop_ok body ->
+  refines (fb_run (FE [] (read_padded (flat mem) loc size)) (FF [] []) (map abs_mbop body))
+          (init_frame zero mem loc size body).
+Proof.
+  intros mem loc size body Hm Hb. unfold init_frame.
+  destruct (mslice_correct B zero mem loc size Hm) as (H1 & H2 & _).
+  set (hex := mslice zero mem loc size) in *.
+  assert (He : wf_env (ME hex hex true)) by (split; assumption).
+  assert (Hs : wf_frame (MF (@empty B) empty)) by (split; apply wf_empty).
+  pose proof (mb_run_correct (ME hex hex true) body (MF empty empty) He Hs Hb) as H.
+  unfold abs_env, abs_frame in H. cbn [m_cd m_code m_create m_mem m_rd] in H.
+  change (flat (@empty B)) with (@nil B) in H. rewrite H2 in H. exact H.
+Qed.
+
+(* the code of the new account is what the init code returns *)
+Lemma created_correct : forall (mem : bvec) loc size (body : list (mbop B)) roff rsize,
+  wf mem -> Forall mbop_ok body ->
+  match init_returns B zero (flat mem) loc size (map abs_mbop body) roff rsize with
+  | Some c => exists v, m_created zero mem loc size body roff rsize = ROk (Some v) /\ wf v /\ flat v = c
+  | None => m_created zero mem loc size body roff rsize = ROk None
+  end.
+Proof.
+  intros mem loc size body roff rsize Hm Hb.
+  pose proof (init_frame_correct mem loc size body Hm Hb) as H.
+  unfold init_returns, m_created.
+  destruct (fb_run (FE [] (read_padded (flat mem) loc size)) (FF [] []) (map abs_mbop body)) as [fst|]; cbn [refines] in H.
+  - destruct H as (cst & -> & [Hw _] & <-).
+    destruct (mslice_correct B zero (m_mem cst) roff rsize Hw) as (H1 & H2 & _).
+    eexists. split; [reflexivity|]. split; [exact H1 | exact H2].
+  - rewrite H. reflexivity.
+Qed.
+
 Lemma m_apply_correct : forall (e : menv) (st : mframe) (o : mop B),
   wf_env e -> wf_frame st -> mop_ok o ->
   refines (f_apply (abs_env e) (abs_frame st) (abs_mop o)) (m_apply e st o).
 Proof.
-  intros e st o He Hst Hok. destruct o as [b | ccode aloc asize body roff rsize oloc osize].
+  intros e st o He Hst Hok.
+  destruct o as [b | ccode aloc asize body roff rsize oloc osize | loc size body roff rsize reverts].
   - apply mb_apply_correct; assumption.
   - destruct Hok as [Hc Hb]. pose proof Hst as [Hm Hrd].
     cbn [abs_mop MemSpec.f_apply MemOpsModel.m_apply abs_frame f_mem f_rd].
@@ -502,6 +545,17 @@ Proof.
     destruct (copy_returndata_correct B zero rd oloc osize (m_mem st) Hrw Hm) as (m' & -> & Hw & Hf).
     exists (MF m' rd). split; [reflexivity|]. split; [split; assumption|].
     unfold abs_frame. cbn [m_mem m_rd]. rewrite Hf. reflexivity.
+  - cbn [mop_ok] in Hok. pose proof Hst as [Hm Hrd].
+    cbn [abs_mop MemSpec.f_apply MemOpsModel.m_apply abs_frame f_mem f_rd].
+    pose proof (init_frame_correct (m_mem st) loc size body Hm Hok) as H.
+    unfold init_returns.
+    destruct (fb_run (FE [] (read_padded (flat (m_mem st)) loc size)) (FF [] []) (map abs_mbop body)) as [fst|]; cbn [refines] in H.
+    + destruct H as (cst & -> & [Hw _] & <-).
+      destruct (mslice_correct B zero (m_mem cst) roff rsize Hw) as (H1 & H2 & _).
+      eexists. split; [reflexivity|]. destruct reverts.
+      * split; [split; assumption|]. unfold abs_frame. cbn [m_mem m_rd]. rewrite H2. reflexivity.
+      * split; [split; [assumption | apply wf_empty]|]. reflexivity.
+    + rewrite H. eexists. split; [reflexivity|]. split; [split; [assumption | apply wf_empty]|]. reflexivity.
 Qed.
 
 (* EVERY sequence of memory instructions and message calls *)
@@ -589,7 +643,7 @@ End SpecPointwise.
    without code over part of it, and a word moved with MLOAD/MSTORE *)
 Definition ex_env : menv nat :=
   ME (BV [(0, Leaf false [1; 2; 3; 4] 0 4); (4, Leaf true [50; 51; 52; 53] 1 2)] 6)
-     (BV [(0, Leaf false [10; 11; 12; 13; 14; 15] 0 6); (6, Leaf true [60; 61] 0 2)] 8).
+     (BV [(0, Leaf false [10; 11; 12; 13; 14; 15] 0 6); (6, Leaf true [60; 61] 0 2)] 8) false.
 
 Definition ex_callee : bvec nat := BV [(0, Leaf false [20; 21; 22; 23; 24] 0 5)] 5.
 
@@ -602,7 +656,8 @@ Definition ex_ops : list (mop nat) :=
     MB (MMCopy 3 2 6);
     MB (MCopyIn (MExt None) 11 7 2);
     MB (MCopyIn (MExt (Some ex_callee)) 0 4 0);
-    MB (MLoadStore 20 40) ].
+    MB (MLoadStore 20 40);
+    MCreate 2 6 [MCopyIn MCalldata 0 0 3; MCopyIn MCode 3 1 4] 0 7 true ].
 
 Lemma memops_example :
   wf_env ex_env /\ Forall mop_ok ex_ops /\
@@ -611,7 +666,7 @@ Lemma memops_example :
        [0; 0; 2; 2; 3; 4; 51; 52; 0; 0; 12; 0; 0; 0; 15; 60; 61; 0; 0; 0; 51; 52; 23; 24; 0; 0; 0; 0; 0; 0;
         0; 0; 99; 0; 0; 0; 0; 0; 0; 0;
         51; 52; 23; 24; 0; 0; 0; 0; 0; 0; 0; 0; 99; 0; 0; 0; 0; 0; 0; 0; 0; 0; 0; 0; 0; 0; 0; 0; 0; 0; 0; 0] /\
-     flat (m_rd st) = [51; 52; 23; 24; 0; 0; 0; 99; 0]) /\
+     flat (m_rd st) = [0; 0; 0; 2; 3; 4; 51]) /\
   (* RETURNDATACOPY beyond the buffer halts, also with size 0 *)
   m_run 0 ex_env (MF empty empty) [MB (MRetCopy 0 1 0)] = RHalt.
 Proof.
